@@ -44,6 +44,9 @@ def main() -> int:
         prop = args[args.index("--prop") + 1]
     if "--needs" in args:
         needs = args[args.index("--needs") + 1]
+    if prop is None:
+        m_ = re.match(r"(C\d\d)-", seed.name)
+        prop = m_.group(1) if m_ else None
     patch = seed / "patch.diff"
     demo = seed / "demo.py"
     tmp = pathlib.Path(tempfile.mkdtemp(prefix="cvseed."))
